@@ -119,6 +119,8 @@ fn fee_sums_do_not_wrap() {
 
 use crate::core::util::test::test_manager::test::TestManager;
 use crate::core::util::crypto::generate_keys;
+#[allow(unused_imports)]
+use crate::core::defs::{SaitoPrivateKey as _SPK};
 
 fn validate_guarded(tx: Transaction, bc: &Blockchain) -> Result<bool, String> {
     let prev = std::panic::take_hook();
@@ -189,6 +191,50 @@ async fn foreign_owned_input_is_rejected() {
                 witness(format!("transaction signed only by key {:?}… spends a spendable {:?} output of {} nolan owned by a different key {:?}… (input position {}) and Transaction::validate(.., validate_against_utxo = true) returned true",
                     &attacker_pk[..4], slip_type, victim.amount, &victim_pk[..4], pos));
             }
+        }
+    }
+}
+
+/// C08: a routing path is accepted iff every hop is signed by its sender over (tx signature ‖ next node), is not a
+/// self-hop, and continues the previous hop; routing work is credited only along such a path ending at the creator
+#[test]
+fn routing_path_contract() {
+    let mut rng = Rng::from_env();
+    let keys: Vec<(SaitoPublicKey, SaitoPrivateKey)> = (0..5).map(|_| generate_keys()).collect();
+    for round in 0..400 {
+        let mut tx = Transaction::default();
+        tx.signature = rng.arr::<64>();
+        tx.total_fees = rng.below(1000);
+        let n = rng.below(4) as usize;
+        let mut cur = rng.below(5) as usize;
+        let mut model_ok = true;
+        let mut desc: Vec<String> = vec![];
+        for i in 0..n {
+            let kind = rng.below(8);
+            let from = if kind == 0 && i > 0 { (cur + 1) % 5 } else { cur };          // discontinuity
+            let to = if kind == 1 { from } else { (from + 1 + rng.below(4) as usize) % 5 };   // self-hop
+            let mut hop = Hop::generate(&keys[from].1, &keys[from].0, &keys[to].0, &tx);
+            if kind == 2 { hop.sig[3] ^= 1; }                                          // bad signature
+            if from != cur && i > 0 { model_ok = false; }
+            if to == from { model_ok = false; }
+            if kind == 2 { model_ok = false; }
+            desc.push(format!("{}→{}{}", from, to, if kind == 2 { "(bad sig)" } else { "" }));
+            tx.path.push(hop);
+            cur = to;
+        }
+        let got = tx.validate_routing_path();
+        if got != model_ok { witness(format!("validate_routing_path returned {} for path {:?} (round {}), expected {}", got, desc, round, model_ok)); }
+        // routing work: contiguous path ending at me → fees halved per extra hop; otherwise 0; never more than the fees
+        if n > 0 {
+            let me = tx.path[n - 1].to;
+            let contiguous = (1..n).all(|i| tx.path[i].from == tx.path[i - 1].to);
+            tx.generate_total_work(&me);
+            let mut expect = tx.total_fees; for _ in 1..n { expect -= expect / 2; }
+            if !contiguous { expect = 0; }
+            if tx.total_work_for_me != expect || tx.total_work_for_me > tx.total_fees { witness(format!("generate_total_work gave {} for fees {} over path {:?}, expected {}", tx.total_work_for_me, tx.total_fees, desc, expect)); }
+            let other = keys.iter().map(|k| k.0).find(|k| *k != me).unwrap();
+            tx.generate_total_work(&other);
+            if tx.total_work_for_me != 0 { witness(format!("routing work {} credited to a node that is not the end of the path {:?}", tx.total_work_for_me, desc)); }
         }
     }
 }
